@@ -5,7 +5,8 @@
    reb_simulation_com == primary when primary is not passed.  primflag: 1 = the token list contains "primary"
    and the primary struct is passed by value at that position (it then takes NO value from the v list);
    hash values are passed as uint32.
-   stdout, one line per case:  <stderr-had-Error:0/1>  m r hash x y z vx vy vz   (hex floats; NaN printed as nan)
+   stdout, one line per case:  <stderr-had-Error:0/1>  m r hash x y z vx vy vz  dN same  (hex floats; NaN printed as nan;
+   dN = particles added by reb_simulation_add_fmt for the same request, same = that particle equals the returned one)
    The error text written by the library to stderr is captured per case through a pipe and its class printed
    as the last field (the text after 'Error!'). */
 #include <stdio.h>
@@ -19,7 +20,7 @@
 #define MAXA 40
 typedef union { double d; uint32_t u; } val_t;
 
-static struct reb_particle call(struct reb_simulation* r, const char* fmt, char kinds[], val_t v[], int n, struct reb_particle prim){
+static struct reb_particle call(int mode, struct reb_simulation* r, const char* fmt, char kinds[], val_t v[], int n, struct reb_particle prim){
     /* kinds: 'd' double, 'p' primary struct, 'u' uint32.  At most 3 non-double arguments are supported by
        enumerating the call shapes explicitly is impossible in portable C; instead we use the fact that the
        parser reads arguments strictly in token order and build the call for the supported shapes:
@@ -39,6 +40,14 @@ static struct reb_particle call(struct reb_simulation* r, const char* fmt, char 
        8 register slots go to the stack IN ARGUMENT ORDER together with the struct, so the struct must come at the
        position matching its token.  To stay strictly portable we therefore require: primary token first, hash token
        second (if present), then all double tokens. */
+    if (mode == 1){      /* reb_simulation_add_fmt: the wrapper that adds the particle to the simulation */
+        if (hasp && hasu) reb_simulation_add_fmt(r, fmt, prim, u, D30);
+        else if (hasp)    reb_simulation_add_fmt(r, fmt, prim, D30);
+        else if (hasu)    reb_simulation_add_fmt(r, fmt, u, D30);
+        else              reb_simulation_add_fmt(r, fmt, D30);
+        struct reb_particle none = {0};
+        return none;
+    }
     if (hasp && hasu) return reb_particle_from_fmt(r, fmt, prim, u, D30);
     if (hasp)         return reb_particle_from_fmt(r, fmt, prim, D30);
     if (hasu)         return reb_particle_from_fmt(r, fmt, u, D30);
@@ -86,14 +95,31 @@ int main(void){
         int pfd[2]; if (pipe(pfd)) return 4;
         fcntl(pfd[0], F_SETFL, O_NONBLOCK);
         fflush(stderr); dup2(pfd[1], 2);
-        struct reb_particle p = call(r, fmtc, kinds, v, n, prim);
+        struct reb_particle p = call(0, r, fmtc, kinds, v, n, prim);
         fflush(stderr); dup2(saved, 2); close(pfd[1]);
         char ebuf[1024]; ssize_t ne = read(pfd[0], ebuf, sizeof(ebuf)-1); close(pfd[0]);
         if (ne < 0) ne = 0;
         ebuf[ne] = 0;
         char* em = strstr(ebuf, "Error!");
+        /* the same request through reb_simulation_add_fmt: how many particles were added, and is the added one
+           bit-identical to what reb_particle_from_fmt returned */
+        int dN = -9, same = -9;
+        if (r){
+            int N0 = r->N;
+            int pfd2[2]; if (pipe(pfd2)) return 4;
+            fflush(stderr); dup2(pfd2[1], 2);
+            call(1, r, fmtc, kinds, v, n, prim);
+            fflush(stderr); dup2(saved, 2); close(pfd2[1]); close(pfd2[0]);
+            dN = r->N - N0; same = 0;
+            if (dN == 1){
+                struct reb_particle a = r->particles[r->N-1];
+                double A[8] = {a.m, a.r, a.x, a.y, a.z, a.vx, a.vy, a.vz}, B[8] = {p.m, p.r, p.x, p.y, p.z, p.vx, p.vy, p.vz};
+                same = (a.hash == p.hash) && (memcmp(A, B, sizeof(A)) == 0 || (a.x != a.x && p.x != p.x));
+            }
+        }
         printf("%d", em ? 1 : 0);
         pd(p.m); pd(p.r); printf(" %u", p.hash); pd(p.x); pd(p.y); pd(p.z); pd(p.vx); pd(p.vy); pd(p.vz);
+        printf(" %d %d", dN, same);
         if (em){
             char* s = em + 6; while (*s==' ' || *s==27 || *s=='[' || *s=='0' || *s=='m') s++;
             char* nl = strchr(s, '\n'); if (nl) *nl = 0;
